@@ -156,6 +156,9 @@ def run(S):
     st, detail, secs = ideal.prove_eq_mod(so3, [(C_FQ[i, j], QCQ[i, j]) for i in range(3) for j in range(3)])
     S.decided('kinematics/right_cauchy_green_rotates_with_reference_rotation', 'proved' if st == 'proved' else 'unknown', 'ideal', detail=detail, seconds=secs)
     _scalar_isotropy(S, so3, Q)
+    # viscoelastic model away from the virgin state: frame indifference of the energy at an arbitrary viscous state (shared with C11)
+    from props.C11 import objectivity_at_arbitrary_viscous_state
+    objectivity_at_arbitrary_viscous_state(S, models=('HyperViscoelastic',))
     bounded(S)
 
 
